@@ -1,4 +1,5 @@
 """Native evaluation of a theorem on concrete inputs (replay of counterexamples, witnesses, native search)."""
+import re as _re
 import traceback
 
 from . import verify
@@ -30,6 +31,7 @@ def native_check(thm, inputs, hooks=None):
         return {"status": "pre-false", "clause": f"requires/lets raised {type(ex).__name__}: {ex}"}
     if hooks and hooks.get("setup"):
         hooks["setup"](env)
+    rec, undo = _record_ghost_calls(thm)
     try:
         result = eval(thm.options.get("native_body", thm.body), env)
         outcome = ("return", result, None)
@@ -37,6 +39,9 @@ def native_check(thm, inputs, hooks=None):
         if isinstance(ex, (KeyboardInterrupt, SystemExit)):
             raise
         outcome = ("raise", None, ex)
+    finally:
+        undo()
+    env.update(rec)
     env["result"] = outcome[1]
     applicable = 0
     for case in thm.cases:
@@ -51,8 +56,8 @@ def native_check(thm, inputs, hooks=None):
         either = exp_raise and bool(case.clauses())
         if outcome[0] == "return" and (not exp_raise or either):
             for cname, clause in case.clauses():
-                if "ghost_" in clause:
-                    continue        # data-flow clause over ghost state of the symbolic run: not observable natively
+                if any(g_ not in env for g_ in _re.findall(r"ghost_\w+", clause)):
+                    continue        # data-flow clause over ghost state of the symbolic run that is not observable natively
                 try:
                     ok = bool(eval(clause, env))
                 except Exception as ex:  # noqa
@@ -72,6 +77,52 @@ def native_check(thm, inputs, hooks=None):
         return {"status": "violation", "case": None, "clause": "cases_exhaustive",
                 "observed": "no contract case applies to this input"}
     return {"status": "ok"}
+
+
+def _record_ghost_calls(thm):
+    """ghost_call_<fn>_<param> / ghost_ret_<fn> / ghost_calls_<fn> of the contract text, observed natively: the named
+    (module-level, modularly used) functions are wrapped for the duration of the run and their latest call recorded."""
+    import importlib
+    import inspect
+    names = set()
+    for case in thm.cases:
+        for _, clause in case.clauses():
+            for m in _re.finditer(r"ghost_(?:call|ret|calls)_(\w+)", clause):
+                names.add(m.group(1))
+    rec, patched = {}, []
+    for qn in [q.split("@")[0] for q in thm.modular]:
+        mod, _, fn = qn.rpartition(".")
+        hit = [n for n in names if n == fn or n.startswith(fn + "_")]
+        if not hit:
+            continue
+        try:
+            m = importlib.import_module(mod)
+            f = getattr(m, fn)
+            sig = inspect.signature(f)
+        except Exception:  # noqa
+            continue
+
+        def wrap(f=f, fn=fn, sig=sig):
+            def w(*a, **k):
+                r = f(*a, **k)
+                try:
+                    ba = sig.bind(*a, **k)
+                    ba.apply_defaults()
+                    for p_, v_ in ba.arguments.items():
+                        rec[f"ghost_call_{fn}_{p_}"] = v_
+                except TypeError:
+                    pass
+                rec[f"ghost_ret_{fn}"] = r
+                rec[f"ghost_calls_{fn}"] = rec.get(f"ghost_calls_{fn}", 0) + 1
+                return r
+            return w
+        setattr(m, fn, wrap())
+        patched.append((m, fn, f))
+
+    def undo():
+        for m, fn, f in patched:
+            setattr(m, fn, f)
+    return rec, undo
 
 
 def _short(v, n=300):
